@@ -23,6 +23,15 @@ def import_xgi():
     if src not in sys.path:
         sys.path.insert(0, src)
     import xgi  # noqa
+    try:  # no property anchors the download code: the network seam is closed
+        import requests
+
+        def _no_network(*a, **k):
+            raise requests.ConnectionError("xgiverif: network access is not simulated")
+
+        requests.get = _no_network
+    except Exception:  # pragma: no cover
+        pass
 
     got = os.path.dirname(os.path.dirname(os.path.abspath(xgi.__file__)))
     if os.path.realpath(got) != os.path.realpath(src):
@@ -73,7 +82,17 @@ class Sim:
         self.known_hits = []
         self.verdict = None
         self.violation = None
-        self.hooks = None  # property specific module (props/*.py)
+        self._hooks = None  # property specific module (props/*.py)
+
+    @property
+    def hooks(self):
+        return self._hooks
+
+    @hooks.setter
+    def hooks(self, h):
+        self._hooks = h
+        if h is not None and hasattr(h, "init"):
+            h.init(self)
 
     # ------------------------------------------------------------------
     def new_actor(self, name, kind, sut=None, model=None, lineage="empty"):
@@ -157,7 +176,12 @@ class Sim:
             self.exec_step(rec)
         if self.verdict is None and cfg.get("epilogue", True):
             self.epilogue()
+        self.finish()
         return self.result()
+
+    def finish(self):
+        if self.hooks is not None and hasattr(self.hooks, "finish"):
+            self.hooks.finish(self)
 
     def next_record(self):
         g = self.gen
@@ -181,6 +205,7 @@ class Sim:
             if self.verdict in ("known", "collateral"):
                 # a replay keeps going only until the recorded violation; other endings stop too
                 break
+        self.finish()
         return self.result()
 
     def epilogue(self):
